@@ -35,10 +35,71 @@ TYPES = {"void", "float", "double", "int", "uint", "size_t", "REALTYPE", "REALTY
          "REALTYPE16", "REALTYPEVEC"}
 
 
+KEPT_CONSTANTS = re.compile(r"^M_[A-Z0-9_]+$")
+
+
+def _expand_macros(text, macros):
+    """Textual expansion of the function-like / object-like macros defined in the header itself, with the C preprocessor's semantics: arguments and body are
+    pasted as text, no parentheses are added (a body `a + b` used as `x - M(p)` becomes `x - a + b`)."""
+    for _ in range(20):
+        changed = False
+        for name, (params, body) in macros.items():
+            pos = 0
+            while True:
+                m = re.search(r"\b%s\b" % re.escape(name), text[pos:])
+                if not m:
+                    break
+                start = pos + m.start()
+                end = pos + m.end()
+                if params is None:
+                    text = text[:start] + " " + body + " " + text[end:]
+                    pos = start + len(body) + 2
+                    changed = True
+                    continue
+                k = end
+                while k < len(text) and text[k].isspace():
+                    k += 1
+                if k >= len(text) or text[k] != "(":
+                    pos = end
+                    continue
+                depth, args, cur, j = 0, [], "", k
+                while j < len(text):
+                    ch = text[j]
+                    if ch == "(":
+                        depth += 1
+                        if depth > 1:
+                            cur += ch
+                    elif ch == ")":
+                        depth -= 1
+                        if depth == 0:
+                            args.append(cur)
+                            break
+                        cur += ch
+                    elif ch == "," and depth == 1:
+                        args.append(cur)
+                        cur = ""
+                    else:
+                        cur += ch
+                    j += 1
+                if depth != 0 or len(args) != len(params):
+                    raise Unsupported("macro %s used with an unexpected argument list" % name)
+                exp = body
+                for prm, arg in zip(params, args):
+                    exp = re.sub(r"\b%s\b" % re.escape(prm), arg.strip(), exp)
+                text = text[:start] + " " + exp + " " + text[j + 1:]
+                pos = start + len(exp) + 2
+                changed = True
+        if not changed:
+            return text
+    raise Unsupported("macro expansion does not terminate")
+
+
 def strip_preprocessor(text, defines=()):
     text = re.sub(r"/\*.*?\*/", " ", text, flags=re.S)
     text = re.sub(r"//[^\n]*", " ", text)
+    text = text.replace("\\\n", " ")
     out = []
+    macros = {}
     stack = []  # booleans: currently emitting?
     for line in text.splitlines():
         s = line.strip()
@@ -47,6 +108,13 @@ def strip_preprocessor(text, defines=()):
             if not m:
                 continue
             d, name = m.group(1), m.group(2)
+            if d == "define" and all(stack):
+                dm = re.match(r"#\s*define\s+(\w+)(\(([^)]*)\))?\s*(.*)$", s)
+                if dm and dm.group(4).strip() and "#" not in dm.group(4) and not KEPT_CONSTANTS.match(dm.group(1)):
+                    params = [a.strip() for a in dm.group(3).split(",")] if dm.group(2) else None
+                    if params == [""]:
+                        params = []
+                    macros[dm.group(1)] = (params, dm.group(4).strip())
             if d == "ifdef":
                 stack.append(name in defines)
             elif d == "ifndef":
@@ -62,7 +130,7 @@ def strip_preprocessor(text, defines=()):
             continue
         if all(stack):
             out.append(line)
-    return "\n".join(out)
+    return _expand_macros("\n".join(out), macros) if macros else "\n".join(out)
 
 
 def tokenize(text):
